@@ -239,6 +239,9 @@ func bufUsed(sc *Scenario, bi int) bool {
 
 // textCandidates proposes smaller texts: JSON-aware reductions when the text
 // parses, byte-chunk deletions otherwise.
+// TextCandidates proposes smaller texts (exported for the other engines).
+func TextCandidates(b []byte) []string { return textCandidates(b) }
+
 func textCandidates(b []byte) []string {
 	var out []string
 	seen := map[string]bool{string(b): true}
